@@ -2271,6 +2271,7 @@ func (m *Msg) WriteToSkipMiddleware(writer io.Writer, middleWareType MiddlewareT
 	mw := &msgWriter{writer: writer, charset: m.charset, encoder: m.encoder}
 	mw.writeMsg(m.applyMiddlewares(m))
 	m.middlewares = origMiddlewares
+	m.headerCount = 0
 	return mw.bytesWritten, mw.err
 }
 
